@@ -411,7 +411,8 @@ fn child(a: &Args, out: &mut Out) {
     let Some((hd0, _)) = lines.first().and_then(|l| split_case(l)) else { return };
     let (p, b) = (hd0.p, hd0.b);
     let rt = tokio::runtime::Builder::new_multi_thread().worker_threads(4).enable_all().build().unwrap();
-    let mk_db = |dir: &std::path::Path| DatabaseBuilder::new().segment_size_bytes(4 * 1024 * 1024).total_buckets(b).bucket_ids_from_range(0..b).open(dir);
+    let mk_db = |dir: &std::path::Path| DatabaseBuilder::new().segment_size_bytes(1024 * 1024).total_buckets(b).bucket_ids_from_range(0..b)
+        .reader_threads(2).writer_threads(b.min(2)).open(dir);
     let mut keep = Vec::new();
     let dir = tempfile::tempdir().unwrap();
     let db = { let _g = rt.enter(); mk_db(dir.path()).unwrap() };
@@ -441,6 +442,8 @@ fn child(a: &Args, out: &mut Out) {
     for (hidx, l) in lines.iter().enumerate() {
         let Some((hd, cmds)) = split_case(l) else { out.case(l, "BADCASE"); continue };
         if hd.p != p || hd.b != b { out.case(l, "BADCASE"); continue; }
+        // D is an input of the model: it must be what the real hash of the default key gives
+        if hd.dflt.iter().any(|(n, h)| uuid_to_partition_hash(default_key(*n)) != *h) { out.case(l, "BADCASE"); continue; }
         if !first {
             let dir = tempfile::tempdir().unwrap();
             let db = { let _g = rt.enter(); mk_db(dir.path()).unwrap() };
@@ -529,7 +532,7 @@ impl Gen {
     fn key(&mut self) -> usize { self.rng.below(self.hd.keys.len() as u64) as usize }
     fn hash_of(&self, pk: &str, st: u64) -> u16 { if let Some(j) = pk.strip_prefix('k') { self.hd.keys[j.parse::<usize>().unwrap()] } else { self.hd.dflt[&st] } }
     /// an expected-version token, mostly one that will be accepted
-    fn xv(&mut self, st: u64, pk: &str, inflight: &HashMap<u64, u64>) -> Option<String> {
+    fn xv(&mut self, st: u64, pk: &str, inflight: &BTreeMap<u64, u64>) -> Option<String> {
         let cur = inflight.get(&st).copied().or_else(|| self.ver.get(&(st, pk.to_string())).copied());
         let strict = self.hd.strict;
         let r = self.rng.below(20);
@@ -546,7 +549,7 @@ impl Gen {
             (_, None) => if !strict && self.rng.chance(1, 3) { "any".into() } else { "empty".into() },
         })
     }
-    fn opts(&mut self, st: u64, pk: &str, h: u16, inflight: &HashMap<u64, u64>, with_pk: Option<&str>) -> String {
+    fn opts(&mut self, st: u64, pk: &str, h: u16, inflight: &BTreeMap<u64, u64>, with_pk: Option<&str>) -> String {
         let mut o = Vec::new();
         if self.rng.chance(1, 3) {
             // an explicit event id: usually with the key's hash, sometimes a wrong one, sometimes one used by a rejected append
@@ -575,7 +578,7 @@ impl Gen {
         let pk = if self.rng.chance(1, 10) { Some(format!("k{}", self.key())) } else { usual };
         let pkname = pk.clone().unwrap_or_else(|| format!("d{st}"));
         let h = self.hash_of(&pkname, st);
-        let o = self.opts(st, &pkname, h, &HashMap::new(), pk.as_deref());
+        let o = self.opts(st, &pkname, h, &BTreeMap::new(), pk.as_deref());
         self.bump(st, &pkname);
         *self.seqs.entry(h % self.hd.p).or_insert(0) += 1;
         let tilde = if self.rng.chance(1, 6) { "~" } else { "" };
@@ -586,7 +589,7 @@ impl Gen {
         let pk = format!("k{j}");
         let h = self.hd.keys[j];
         let n = match self.rng.below(10) { 0..=3 => 1, 4..=6 => 2, 7 | 8 => 3, _ => self.rng.range(4, 7) };
-        let mut inflight: HashMap<u64, u64> = HashMap::new();
+        let mut inflight: BTreeMap<u64, u64> = BTreeMap::new();
         let mut evs = Vec::new();
         for _ in 0..n {
             // repeated streams inside one transaction are the interesting case
